@@ -61,6 +61,15 @@ Definition sample_ok (x : style * nat * string * string) : bool :=
 Lemma ph_samples_ok : forallb sample_ok ph_samples = true.
 Proof. vm_compute. reflexivity. Qed.
 
+(* explicitly named placeholders: the dict classes recover the name from the text, whatever the name is *)
+Lemma key_of_explicit sty name : is_dict sty = true -> param_key sty (explicit_text sty name) = name.
+Proof. destruct sty; try discriminate; intros _; [reflexivity|apply slice_mid_22]. Qed.
+Definition named_sample_ok (x : style * string * string * string) : bool :=
+  let '(sty, name, txt, key) := x in
+  String.eqb (explicit_text sty name) txt && String.eqb (param_key sty txt) key.
+Lemma ph_named_samples_ok : forallb named_sample_ok ph_named_samples = true.
+Proof. vm_compute. reflexivity. Qed.
+
 (* ---- dictionaries ---- *)
 Lemma dict_set_fresh k v st : ~ In k (map fst st) -> dict_set k v st = st ++ [(k, v)].
 Proof.
